@@ -736,6 +736,9 @@ EXPECTED_REJECTED = {
 COMB_COMPARE = ('Add', 'AddWide', 'Sub', 'Mul', 'SignedMul', 'Div', 'Mux2', 'Mux4', 'And3', 'Or3', 'Xor3', 'Not', 'Equal',
                 'Comparator', 'ShiftLeft', 'ShiftRight', 'ShiftRightArith', 'ShiftLeftConstant', 'SignExtend', 'ZeroExtend',
                 'ConcatenateMSBF', 'ConcatenateLSBF', 'Range', 'Bit', 'BitsLSBF', 'Repeat', 'FPAdder_SP')
+# compared with zero_powerup=True: the texts leave storage uninitialised (x per IEEE, 0 in py4hw)
+SEQ_COMPARE_ZP = ('SynchronousMemory', 'CounterBehavioural', 'AutoReset', 'UARTSerializer', 'UARTDeserializer',
+                  'Axi2ClkFSM')
 SEQ_COMPARE = ('Reg', 'RegER', 'RegE', 'RegR', 'Counter', 'ModuloCounter', 'TReg', 'DelayLine', 'EdgeDetector_pos',
                'EdgeDetector_neg', 'EdgeDetector_both', 'ClockDividerReset')
 
@@ -798,12 +801,12 @@ def section_f():
                         disagreements.append((name, dict((n2, s.wires[n2].get()) for n2, _ in s.ins), n,
                                               s.wires[n].get(), sim.get(n)))
         check('f.compare-' + name, bad == 0, '%d mismatches, first: %r' % (bad, disagreements[-1:] if bad else ''))
-    for name in SEQ_COMPARE:
+    for name in SEQ_COMPARE + SEQ_COMPARE_ZP:
         if name not in designs:
             check('f.seq-compare-' + name, False, 'not elaborated')
             continue
         s = byname[name]
-        sim = Sim(designs[name], rng=random.Random(12))
+        sim = Sim(designs[name], rng=random.Random(12), zero_powerup=name in SEQ_COMPARE_ZP)
         sim.set('clk', 0)
         psim = s.hw.getSimulator()
         r = random.Random(6)
